@@ -27,24 +27,34 @@ type env struct {
 	sto, typ string
 	T        ad.ScalarType
 	thorough bool
+	state    Cfg // the explored state (its path is replayed for the "twin" operand, operands.go)
+	// plain is set for the execution on the deep copy: every operand that is a VIEW in the
+	// execution on the view (operands.go) is then an owning matrix/vector with the same
+	// elements, so the reference execution contains no view at all
+	plain bool
+	made  []*madeOp  // operand views (or their plain counterparts) in order of creation
+	vmade []*madeVec // the same for vector slices
 }
 
-func (e *env) opnd(sto string, r, c, seed int, zeros bool) ad.Matrix {
-	m := newMat(sto, e.typ, r, c)
+// opndContent is the content of the auxiliary operands: small positive integers, with
+// (zeros) or without zero entries
+func opndContent(r, c, seed int, zeros bool) [][]float64 {
+	v := make([][]float64, r)
 	for i := 0; i < r; i++ {
+		v[i] = make([]float64, c)
 		for j := 0; j < c; j++ {
-			var v int
 			if zeros {
-				v = (i + 2*j + seed) % 3
+				v[i][j] = float64((i + 2*j + seed) % 3)
 			} else {
-				v = 1 + (2*i+3*j+seed)%4
-			}
-			if v != 0 {
-				m.At(i, j).SetFloat64(float64(v))
+				v[i][j] = float64(1 + (2*i+3*j+seed)%4)
 			}
 		}
 	}
-	return m
+	return v
+}
+
+func (e *env) opnd(sto string, r, c, seed int, zeros bool) ad.Matrix {
+	return matFrom(sto, e.typ, opndContent(r, c, seed, zeros), r, c)
 }
 
 func (e *env) vecOp(n, seed int) ad.Vector {
@@ -549,6 +559,11 @@ func scenarios(e *env, rows, cols int, hasZero bool, which string) []scenario {
 	}
 	add(sc("IsSymmetric", false, func(v ad.Matrix, e *env, r *res) { r.b(v.IsSymmetric(1e-8)) }))
 
+	// ---- the same operations with operands that are views themselves (operands.go)
+	if !empty {
+		operandScenarios(e, add, !full, hasZero)
+	}
+
 	// ---- in-place mutators
 	if full {
 		for i := 0; i < rows; i++ {
@@ -730,9 +745,11 @@ func runScenario(cfg Cfg, e *env, s scenario) []failure {
 	}
 	m := w.m
 	content := m.viewContent()
-	rv := exec(s, w.view, e)
+	ev, ec := *e, *e
+	ec.plain = true
+	rv := exec(s, w.view, &ev)
 	cp := matFrom(cfg.Sto, cfg.Typ, content, m.rows, m.cols)
-	rc := exec(s, cp, e)
+	rc := exec(s, cp, &ec)
 	afterView, afterCopy := snap(w.view), snap(cp)
 	reported := false
 	if !rv.eq(rc) {
@@ -758,11 +775,24 @@ func runScenario(cfg Cfg, e *env, s scenario) []failure {
 	}
 	// what happened to the root object: cells the view denotes follow the copy, all other
 	// cells keep their value
+	rootCheck(w, afterCopy, reported, "parent", fail)
+	// operands that were views themselves (operands.go): each must end like its owning
+	// counterpart of the reference execution, and its own parent must have changed in
+	// exactly the cells it denotes (not at all, if it was only read)
+	checkOperands(&ev, &ec, reported, fail)
+	return fails
+}
+
+// rootCheck compares the root object of the world w (and the sources of copying T()s)
+// with what the view is supposed to have done to it: the cells the view denotes hold what
+// the reference object `after` holds, every other cell keeps its value.
+func rootCheck(w *world, after snapT, reported bool, who string, fail func(what, detail string)) {
+	m := w.m
 	root := w.root()
 	afterRoot := snap(root)
 	if afterRoot.Err != "" || afterRoot.R != m.rootR || afterRoot.C != m.rootC {
-		fail("root-dims", "root object changed shape: "+afterRoot.String())
-		return fails
+		fail("root-dims", who+" changed shape: "+afterRoot.String())
+		return
 	}
 	inv := map[cellRef]cellRef{}
 	for i := 0; i < m.rows; i++ {
@@ -775,21 +805,21 @@ func runScenario(cfg Cfg, e *env, s scenario) []failure {
 		for j := 0; j < m.rootC; j++ {
 			got := afterRoot.at(i, j)
 			if vc, ok := inv[cellRef{i, j}]; ok {
-				if afterCopy.Err == "" && afterCopy.R == m.rows && afterCopy.C == m.cols {
-					if want := afterCopy.at(vc.I, vc.J); !got.eq(want) && nothrough == "" {
-						nothrough = fmt.Sprintf("parent cell (%d,%d) = %v, denoted by view cell (%d,%d) which should now hold %v", i, j, got, vc.I, vc.J, want)
+				if after.Err == "" && after.R == m.rows && after.C == m.cols {
+					if want := after.at(vc.I, vc.J); !got.eq(want) && nothrough == "" {
+						nothrough = fmt.Sprintf("%s cell (%d,%d) = %v, denoted by view cell (%d,%d) which should now hold %v", who, i, j, got, vc.I, vc.J, want)
 					}
 				}
 			} else if want := (cell{V: m.root[i][j]}); !got.eq(want) && elsewhere == "" {
-				elsewhere = fmt.Sprintf("parent cell (%d,%d) outside the view changed from %v to %v", i, j, want, got)
+				elsewhere = fmt.Sprintf("%s cell (%d,%d) outside the view changed from %v to %v", who, i, j, want, got)
 			}
 		}
 	}
 	if elsewhere != "" {
-		fail("write-elsewhere", elsewhere+"; parent afterwards "+afterRoot.String())
+		fail("write-elsewhere", elsewhere+"; "+who+" afterwards "+afterRoot.String())
 	}
 	if nothrough != "" && !reported {
-		fail("no-write-through", nothrough+"; parent afterwards "+afterRoot.String())
+		fail("no-write-through", nothrough+"; "+who+" afterwards "+afterRoot.String())
 	}
 	// ancestors left behind by a copying T(): every cell keeps its value or follows the
 	// (partially shared) copy
@@ -816,7 +846,6 @@ func runScenario(cfg Cfg, e *env, s scenario) []failure {
 			}
 		}
 	}
-	return fails
 }
 
 // extra checks that are not differential --------------------------------------------------
@@ -893,48 +922,98 @@ func tipCheck(cfg Cfg, viaClone bool) []failure {
 }
 
 // vector -> matrix reinterpretation: AsMatrix(n,m).At(i,j) is element i*m+j; it is
-// compared read-only (whether it is a reference or a copy is not documented)
+// compared read-only (whether it is a reference or a copy is not documented). The vector is
+// an owning vector, and a slice (off, off+R*C) of a longer one for (off, trailing margin) in
+// {(1,0), (0,1), (2,1)}: the matrix made from a slice must read, iterate and transpose like
+// the one made from the owning vector, and leave the longer vector alone.
 func asMatrixCheck(sto, typ string, R, C int) []failure {
 	var fails []failure
 	T := scalarType(typ)
-	var v ad.Vector
-	if sto == "dense" {
-		v = ad.NullDenseVector(T, R*C)
-	} else {
-		v = ad.NullSparseVector(T, R*C)
+	type obs struct {
+		s, t snapT
+		it   *res
 	}
-	for k := 0; k < R*C; k++ {
-		if k%3 != 2 {
-			v.At(k).SetFloat64(float64(k + 1))
-		}
-	}
-	for _, name := range []string{"AsMatrix", "AsConstMatrix"} {
-		var m ad.ConstMatrix
-		var perr string
-		func() {
-			defer func() {
-				if r := recover(); r != nil {
-					perr = fmt.Sprint(r)
-				}
-			}()
-			if name == "AsMatrix" {
-				m = v.AsMatrix(R, C)
-			} else {
-				m = v.AsConstMatrix(R, C)
+	observe := func(name string, v ad.Vector) (o obs, perr string) {
+		defer func() {
+			if r := recover(); r != nil {
+				perr = fmt.Sprint(r)
 			}
 		}()
-		key := name + "|" + sto + "|vector|"
-		if perr != "" {
-			fails = append(fails, failure{key + "panic", fmt.Sprintf("%s(%d,%d) of a %s %s vector panics: %s", name, R, C, sto, typ, perr)})
-			continue
+		var m ad.ConstMatrix
+		if name == "AsMatrix" {
+			m = v.AsMatrix(R, C)
+		} else {
+			m = v.AsConstMatrix(R, C)
 		}
-		s := snap(m)
-		want := snapT{R: R, C: C}
-		for k := 0; k < R*C; k++ {
-			want.V = append(want.V, cell{V: v.Float64At(k)})
+		o.s = snap(m)
+		o.it = &res{}
+		walkIter(m.ConstIterator(), o.it)
+		if mm, ok := m.(ad.Matrix); ok {
+			o.t = snap(mm.T())
 		}
-		if !s.eq(want) {
-			fails = append(fails, failure{key + "value", fmt.Sprintf("%s(%d,%d) of %s %s vector reads %v, expected %v", name, R, C, sto, typ, s, want)})
+		return o, ""
+	}
+	for _, name := range []string{"AsMatrix", "AsConstMatrix"} {
+		var ref obs
+		refOk := false
+		for _, om := range [][2]int{{0, 0}, {1, 0}, {0, 1}, {2, 1}} {
+			off, margin := om[0], om[1]
+			n := R*C + off + margin
+			p := newVec(sto, T, n)
+			want := snapT{R: R, C: C}
+			pwant := make([]cell, n)
+			for k := 0; k < n; k++ {
+				x := float64(sentinel0 + k)
+				if k >= off && k < off+R*C {
+					x = 0
+					if q := k - off; q%3 != 2 {
+						x = float64(q + 1)
+					}
+					want.V = append(want.V, cell{V: x})
+				}
+				if x != 0 {
+					p.At(k).SetFloat64(x)
+				}
+				pwant[k] = cell{V: x}
+			}
+			v, cls := p, "vector"
+			if off+margin > 0 {
+				v, cls = p.Slice(off, off+R*C), "vector-slice"
+			}
+			key := name + "|" + sto + "|" + cls + "|"
+			what := fmt.Sprintf("%s(%d,%d) of a %s %s vector", name, R, C, sto, typ)
+			if off+margin > 0 {
+				what = fmt.Sprintf("%s(%d,%d) of Slice(%d,%d) of a %s %s vector of dimension %d", name, R, C, off, off+R*C, sto, typ, n)
+			}
+			o, perr := observe(name, v)
+			if perr != "" {
+				fails = append(fails, failure{key + "panic", what + " panics: " + perr})
+				continue
+			}
+			if !o.s.eq(want) {
+				fails = append(fails, failure{key + "value", fmt.Sprintf("%s reads %v, expected %v", what, o.s, want)})
+				continue
+			}
+			if off+margin == 0 {
+				ref, refOk = o, true
+			} else if refOk {
+				if !o.it.eq(ref.it) {
+					fails = append(fails, failure{key + "iterator", fmt.Sprintf("%s iterates %v, the matrix made from an owning vector with the same elements %v", what, o.it, ref.it)})
+				}
+				if !o.t.eq(ref.t) {
+					fails = append(fails, failure{key + "T", fmt.Sprintf("%s: T() reads %v, for the matrix made from an owning vector with the same elements %v", what, o.t, ref.t)})
+				}
+			}
+			if ps, perr := vecSnap(p); perr != "" || len(ps) != n {
+				fails = append(fails, failure{key + "modified", fmt.Sprintf("%s: the vector is no longer readable (%s)", what, perr)})
+			} else {
+				for k := range ps {
+					if !ps[k].eq(pwant[k]) {
+						fails = append(fails, failure{key + "modified", fmt.Sprintf("%s: reading the reinterpretation changed element %d of the vector from %v to %v", what, k, pwant[k], ps[k])})
+						break
+					}
+				}
+			}
 		}
 	}
 	return fails
